@@ -3,6 +3,7 @@ package main
 // Engine side of the harness runtime (package internal/zzvrt).
 
 import (
+	"go/types"
 	"fmt"
 	"math/big"
 
@@ -71,6 +72,10 @@ func (ex *Exec) vrtCall(fn *ssa.Function, args []Value, g *Term, where string) V
 		return v
 	case "String", "StringNo":
 		name := ex.label(T(0))
+		if fs, ok := ex.fixedStr[name]; ok {
+			ex.nondets = append(ex.nondets, NondetRec{Label: name, Kind: "fixed"})
+			return Str(fs)
+		}
 		v := NewVar(name, SStr)
 		if fn.Name() == "StringNo" {
 			fb := T(1)
@@ -196,6 +201,16 @@ func (ex *Exec) vrtCall(fn *ssa.Function, args []Value, g *Term, where string) V
 	case "Reader":
 		// abstract io.Reader: full content, whether reading fails, what was read before the failure
 		return &IfaceVal{Nil: False, Typ: fn.Signature.Results().At(0).Type(), V: &OpaqueVal{Kind: "reader", Args: []Value{args[0], args[1], args[2]}}}
+	case "ChunkReader":
+		// stateful reader: yields c1, then c2 (together with io.EOF if eofWithData), then (0, io.EOF);
+		// if fails: yields c1, then (0, error). Cells: c1, c2, eofWithData, fails, position.
+		o := ex.heap.newObj(KStruct, nil, 5, "chunkreader")
+		o.born = g
+		o.cells[0], o.cells[1], o.cells[2], o.cells[3], o.cells[4] = args[0], args[1], args[2], args[3], BV(0)
+		rt := ex.chunkReaderType(fn)
+		return &IfaceVal{Nil: False, Typ: rt, V: ptrTo(o, -1)}
+	case "Read":
+		return ex.chunkRead(args, g, where)
 	case "ReadAll":
 		iv, ok := args[0].(*IfaceVal)
 		if !ok {
@@ -344,4 +359,80 @@ func (ex *Exec) frameUnchanged(g *Term, msg string) {
 		m = fmt.Sprintf("%s (candidate writes: %v)", msg, what)
 	}
 	ex.asserts = append(ex.asserts, AssertRec{G: g, Cond: Not(Or(diffs...)), Msg: m, Kind: "assert"})
+}
+
+// chunkReaderType: the concrete (pointer) type natively returned by vrt.ChunkReader
+func (ex *Exec) chunkReaderType(fn *ssa.Function) types.Type {
+	obj := fn.Pkg.Pkg.Scope().Lookup("chunkReader")
+	if obj == nil {
+		unsupported("vrt.chunkReader type not found")
+	}
+	return types.NewPointer(obj.Type())
+}
+
+func isChunkReader(v Value) (*Object, bool) {
+	iv, ok := v.(*IfaceVal)
+	if ok {
+		v = iv.V
+	}
+	p, ok := v.(*PtrVal)
+	if !ok || len(p.T) != 1 || p.T[0].Obj == nil || p.T[0].Obj.name != "chunkreader" {
+		return nil, false
+	}
+	return p.T[0].Obj, true
+}
+
+func (ex *Exec) eofErr() *ErrVal {
+	idx := -1
+	for i, n := range ex.errNames {
+		if n == "io.EOF" {
+			idx = i
+		}
+	}
+	if idx < 0 {
+		ex.errNames = append(ex.errNames, "io.EOF")
+		idx = len(ex.errNames) - 1
+	}
+	e := &ErrVal{Nil: False, Bits: make([]*Term, len(ex.errNames))}
+	for i := range e.Bits {
+		e.Bits[i] = Bool(i == idx)
+	}
+	return e
+}
+
+// chunkRead: (*chunkReader).Read(p []byte) on the abstract reader; p must be a byte buffer view.
+func (ex *Exec) chunkRead(args []Value, g *Term, where string) Value {
+	o, ok := isChunkReader(args[0])
+	if !ok {
+		unsupported("Read on %T at %s", args[0], where)
+	}
+	buf, ok := args[1].(*BytesVal)
+	if !ok {
+		unsupported("Read into %T at %s", args[1], where)
+	}
+	c1, c2 := o.cells[0].(*Term), o.cells[1].(*Term)
+	eofData, fails, pos := o.cells[2].(*Term), o.cells[3].(*Term), o.cells[4].(*Term)
+	p0, p1 := Eq(pos, BV(0)), Eq(pos, BV(1))
+	// data returned by this call
+	data := Ite(p0, c1, Ite(And(p1, Not(fails)), c2, Str("")))
+	eof := ex.eofErr()
+	foreign := &ErrVal{Nil: False, Bits: make([]*Term, len(ex.errNames))}
+	for i := range foreign.Bits {
+		foreign.Bits[i] = Bool(i == 0)
+	}
+	nilErr := newErrNil(len(ex.errNames))
+	// error returned by this call
+	isEOF := Or(And(p1, Not(fails), eofData), And(Not(p0), Not(p1), True))
+	isEOF = And(isEOF, Not(And(Not(p0), fails)))
+	isFail := And(Not(p0), fails)
+	var err Value = iteValue(isFail, foreign, iteValue(isEOF, eof, nilErr))
+	// the buffer now holds the data
+	gw := g
+	if buf.Obj.born != nil && gw == buf.Obj.born {
+		gw = True
+	}
+	buf.Obj.cells[0] = iteValue(gw, data, buf.Obj.cells[0])
+	o.cells[4] = iteValue(g, BVBin(OpBVAdd, pos, BV(1)), pos)
+	ex.panicIf(And(g, BVBin(OpBVSLt, BV(int64(buf.Cap)), StrLenBV(data))), "chunk larger than the read buffer (outside the reader model) at "+where)
+	return TupleVal{StrLenBV(data), err}
 }
